@@ -12,7 +12,8 @@ static bool gen_c10(uint64_t seed, const std::string &tier, uint64_t i, Plan &p)
   Rng r(p.seed);
   base_knobs(r, p, false);
   p.knobs.set("oracles", oracle_list({"c10"}));
-  static const std::vector<std::string> doms = {"a.example", "b.example", "sub.a.example", "deep.sub.a.example", "c.test", "x.c.test", "fax", "host.fax", "sim.example"};
+  // (names cover both ends of the alphabet, digits and hyphens: case folding is per character)
+  static const std::vector<std::string> doms = {"a.example", "b.example", "sub.a.example", "deep.sub.a.example", "c.test", "x.c.test", "fax", "host.fax", "sim.example", "zone.example", "az-09.zz", "sub.zone.example"};
   auto gen_conf = [&](Json &conf) {
     Json loc = Json::arr(); std::set<std::string> used;
     int nl = (int)r.range(0, 3); for (int q = 0; q < nl; q++) { std::string d = r.pick(doms); if (used.insert(d).second) loc.push(mixcase(r, d)); }
@@ -21,9 +22,9 @@ static bool gen_c10(uint64_t seed, const std::string &tier, uint64_t i, Plan &p)
     Json vd = Json::arr(); int nv = (int)r.range(0, 5); std::set<std::string> vk;
     for (int q = 0; q < nv; q++) {
       int kind = (int)r.below(5); std::string key;
-      if (kind == 0) key = r.pick(std::vector<std::string>{"joe", "info", "a.b"}) + "@" + r.pick(doms);
+      if (kind == 0) key = r.pick(std::vector<std::string>{"joe", "info", "a.b", "zed"}) + "@" + r.pick(doms);
       else if (kind == 1) key = r.pick(doms);
-      else if (kind == 2) key = "." + r.pick(std::vector<std::string>{"a.example", "example", "fax", "c.test", "sub.a.example"});
+      else if (kind == 2) key = "." + r.pick(std::vector<std::string>{"a.example", "example", "fax", "c.test", "sub.a.example", "zone.example", "zz"});
       else if (kind == 3) key = "";
       else key = r.pick(doms);
       if (!vk.insert(key).second) continue;   // control files listing a key twice are outside the documented domain
@@ -40,7 +41,7 @@ static bool gen_c10(uint64_t seed, const std::string &tier, uint64_t i, Plan &p)
   p.knobs.set("conf", conf);
   p.knobs.set("default_verdict", "K");
   auto rand_rcpt = [&]() -> std::string {
-    int kind = (int)r.below(12); std::string box = r.pick(std::vector<std::string>{"joe", "info", "a.b", "x", "Joe", "u%a.example", "u%b.example%a.example", "a%b", "we@ird"});
+    int kind = (int)r.below(12); std::string box = r.pick(std::vector<std::string>{"joe", "info", "a.b", "x", "Joe", "u%a.example", "u%b.example%a.example", "a%b", "we@ird", "zed", "ZED", "u%ZONE.example"});
     std::string d = mixcase(r, r.pick(doms));
     switch (kind) {
       case 0: return box;                                   // no @
